@@ -4,13 +4,13 @@ from common_tb import COMMON_TB
 
 
 CFG = dict(
-    id="C12", tie="Tie.C12", n_quick=260, n_thorough=2500, thorough_seeds=3,
+    id="C12", tie="Tie.C12", n_quick=200, n_thorough=2500, thorough_seeds=3,
     rule="a case is one history on a fresh table t(id INTEGER [AUTO_INCREMENT] PK, v INTEGER [NOT NULL], s VARCHAR[1..4]) "
          "[CHECK (v >= 0)]: 9 scripted histories (the witnesses of every known defect, honest concurrent duplicates, "
          "delete/re-insert, auto-increment mixed with explicit ids) plus random histories of 8-26 events by 1 session (60%) "
          "or 2 sessions interleaved under a random schedule (40%): autocommit statements, multi-statement implicit "
          "transactions, BEGIN/statement/COMMIT/ROLLBACK, CREATE [UNIQUE] INDEX on populated tables; statements: INSERT "
-         "(1-3 rows), UPSERT, INSERT ON CONFLICT DO NOTHING / DO UPDATE SET, UPDATE of v or s (by id, by v, all rows), DELETE; "
+         "(1-3 rows), UPSERT, INSERT ON CONFLICT DO NOTHING / DO UPDATE SET, UPDATE of v or s (by id or all rows), DELETE (by id or all rows); "
          "ids 1..5 (+0,-1,7,9,1000), v in {0,1,10,20,30} (+negatives, 2^40, NULL, non-numeric strings), s around the declared "
          "length (len-1, len, len+1, longer, empty, NULL, integers); every event's outcome (ok/error) and the whole table after "
          "it are compared with the model; non-trivial = the table changed at least twice and at least one event failed; "
